@@ -154,6 +154,20 @@ func ruleNatsRemoveBeforeInvoke(c *Ctx) {
 					continue
 				}
 				ninv++
+				// completions run with the adapter's lock released: a callback that comes back into the
+				// adapter (a retry from a timeout) must not meet the lock its caller still holds
+				depth := 0
+				for _, pe := range path[:i] {
+					switch pe.Kind {
+					case "lock":
+						depth++
+					case "unlock":
+						depth--
+					}
+				}
+				if depth > 0 {
+					bad = "the completion is invoked while the adapter's mutex is held: a callback that sends a request from there deadlocks the listener and every pending timeout: " + tr.FmtPath(path)
+				}
 				isReq := hasKind(path[:i], "isreq") || nm == "(*nats.Client).onTimeout"
 				if hasKind(path[:i], "notfound") {
 					bad = "completion invoked although no pending entry was found (it was already completed by a reply or timeout): " + tr.FmtPath(path)
@@ -453,6 +467,61 @@ func ruleNatsPlumbing(c *Ctx) {
 	}
 	c.check(hasNoRe && hasClosed && nListener == 1, fnName(conn), "no reconnect, closed handler installed, exactly one listener goroutine", p.Pos(conn.Pos()),
 		"NoReconnect, ClosedHandler(c.onClose), one `go c.listener`", fmt.Sprintf("NoReconnect=%v ClosedHandler(onClose)=%v listeners=%d", hasNoRe, hasClosed, nListener))
+	// close tears the adapter down whenever it was connected — also when the connection itself is already
+	// closed (Stop after a connection loss): the listener is stopped and the pending timeouts are cleared, or a
+	// timeout fires into the stopped cache later
+	if cl := p.Fn("(*nats.Client).close"); cl != nil {
+		fMq := p.Field("nats.Client.mq")
+		fCh := p.Field("nats.Client.mqCh")
+		c.inst(1)
+		sp := &Spec{InlineHelpers: true}
+		sp.Classify = func(t *Tracer, fr *Frame, in ssa.Instruction) []Ev {
+			if call, ok := isBuiltinCall(in, "close"); ok {
+				if f, _ := fieldLoad(t.Resolve(fr, call.Call.Args[0]).V); f == fCh && fCh != nil {
+					return []Ev{{Kind: "listener-stopped"}}
+				}
+				if f, _ := fieldLoad(call.Call.Args[0]); f == fCh && fCh != nil {
+					return []Ev{{Kind: "listener-stopped"}}
+				}
+			}
+			if call, ok := in.(ssa.CallInstruction); ok {
+				if cf := calleeFunc(call.Common()); cf != nil && cf.Pkg() != nil && strings.HasSuffix(cf.Pkg().Path(), "timerqueue") && (cf.Name() == "Clear" || cf.Name() == "Flush") {
+					return []Ev{{Kind: "timeouts-cleared"}}
+				}
+			}
+			return nil
+		}
+		sp.Branch = func(t *Tracer, fr *Frame, i *ssa.If, dir bool) []Ev {
+			if x, nn, ok := nilTest(i, dir); ok {
+				if f, _ := fieldLoad(t.Resolve(fr, x).V); f == fMq && fMq != nil {
+					if nn {
+						return []Ev{{Kind: "connected"}}
+					}
+					return []Ev{{Kind: "never-connected"}}
+				}
+			}
+			return nil
+		}
+		tr := runTrace(p, cl, sp)
+		bad := ""
+		nConn := 0
+		for _, path := range tr.Paths {
+			if hasKind(path, "never-connected") {
+				continue
+			}
+			nConn++
+			if !hasKind(path, "listener-stopped") || !hasKind(path, "timeouts-cleared") {
+				bad = "a path of close leaves a connected adapter's listener running or its pending timeouts armed (for example when the connection itself is already closed, as it is when Stop follows a connection loss): a request timeout later fires into the stopped cache: " + tr.FmtPath(path)
+			}
+		}
+		if nConn == 0 {
+			bad = "no path for a connected adapter found"
+		}
+		if tr.Trunc {
+			bad = "path budget exhausted"
+		}
+		c.check(bad == "", fnName(cl), "close stops the listener and clears the pending timeouts whenever the adapter was connected", p.Pos(cl.Pos()), fmt.Sprintf("%d paths, %d for a connected adapter", len(tr.Paths), nConn), bad)
+	}
 	// onClose forwards to the close handler
 	oc := p.Fn("(*nats.Client).onClose")
 	if oc != nil {
